@@ -257,6 +257,7 @@ func checkRingRotation(w *World, r *Report, rule string) {
 		return
 	}
 	isOldItems := func(v ssa.Value) bool { return strings.HasSuffix(w.pathOf(v), ".items") }
+	checkRingNormalised(w, r, rule, []*ssa.Function{push, pop, popn}, nil)
 	verdict := func(key, what, site string, decided bool, bad []string) {
 		switch {
 		case len(bad) > 0:
@@ -498,6 +499,55 @@ func checkRingRotation(w *World, r *Report, rule string) {
 			}
 		}
 		verdict("RingBuffer.Pop:offsets", "Pop advances head by one (mod size) and returns the element at the new head", site, decided, bad)
+	}
+}
+
+// checkRingNormalised: every value stored into head or tail (outside a fresh buffer literal) is
+// reduced modulo the buffer size: the full test `tail == head` and every index rely on both staying in [0, mod).
+func checkRingNormalised(w *World, r *Report, rule string, fns []*ssa.Function, bufT interface{ String() string }) {
+	for _, fn := range fns {
+		if fn == nil {
+			continue
+		}
+		g := w.FGI(fn)
+		cx := &affCtx{w: w, g: g}
+		var bad []string
+		n := 0
+		for _, in := range g.ins {
+			st, isSt := in.(*ssa.Store)
+			if !isSt {
+				continue
+			}
+			fa, isFA := st.Addr.(*ssa.FieldAddr)
+			if !isFA {
+				continue
+			}
+			name, named := fieldName(fa)
+			if named == nil || named.Obj().Name() != "buffer" || (name != "head" && name != "tail") {
+				continue
+			}
+			if _, fresh := fa.X.(*ssa.Alloc); fresh {
+				continue // a field of the new buffer literal (checked by the grow rule)
+			}
+			n++
+			a := cx.parse(st.Val, 0)
+			if a == nil {
+				continue
+			}
+			if _, isK := a.isConst(); isK {
+				continue
+			}
+			if !a.modM {
+				bad = append(bad, fmt.Sprintf("%s = %s is not reduced modulo the buffer size", name, a))
+			}
+		}
+		key := "RingBuffer." + fn.Name() + ":origin-normalised"
+		what := "head and tail are stored reduced modulo the buffer size"
+		if len(bad) > 0 {
+			r.Fail(rule, key, what, w.fnPos(fn), strings.Join(bad, "; ")+": once head or tail leaves [0, size) the full test never fires again and unread elements are overwritten")
+		} else if n > 0 {
+			r.OK(rule, key, what, w.fnPos(fn))
+		}
 	}
 }
 
